@@ -711,8 +711,44 @@ def unroll_array_loops(text, log):
         pos = h.start() + len(new)
 
 
+def expand_cmp_max_min(text, log):
+    """E19: `std::cmp::max(A, B)` / `cmp::min(A, B)` (generic over Ord: Verus cannot give the generic functions a spec) is replaced
+    by its definition `{ let a = A; let b = B; if b >= a { b } else { a } }` (max; min analogously: `if a <= b { a } else { b }`),
+    which has the same value and evaluates A then B exactly once.  Only meaningful for Copy operands; for anything else the
+    generated text does not compile and the unit is undecided."""
+    rx = re.compile(r"\b(?:std::|core::)?cmp::(max|min)\s*\(")
+    pos = 0
+    while True:
+        m = mask(text)
+        h = rx.search(mask_comments(text), pos)
+        if not h:
+            return text
+        if m[h.start()] != text[h.start()]:
+            pos = h.end()
+            continue
+        j, depth = h.end(), 1
+        while j < len(m) and depth:
+            depth += m[j] in "([{"
+            depth -= m[j] in ")]}"
+            j += 1
+        args = _split_top(text[h.end():j - 1])
+        if len(args) != 2:
+            pos = h.end()
+            continue
+        a, b = (" ".join(x.split()) for x in args)
+        seg = text[h.start():j]
+        if h.group(1) == "max":
+            new = "{ let cmp_a__ = %s; let cmp_b__ = %s; if cmp_b__ >= cmp_a__ { cmp_b__ } else { cmp_a__ } }" % (a, b)
+        else:
+            new = "{ let cmp_a__ = %s; let cmp_b__ = %s; if cmp_a__ <= cmp_b__ { cmp_a__ } else { cmp_b__ } }" % (a, b)
+        text = text[:h.start()] + new + "\n" * seg.count("\n") + text[j:]
+        log.append("E19 idiom (`cmp::%s(a, b)` replaced by its definition: the generic function has no Verus spec)" % h.group(1))
+        pos = h.start() + len(new)
+
+
 def apply_idioms(text, log):
     text = unroll_array_loops(text, log)
+    text = expand_cmp_max_min(text, log)
     for pat, to, why in IDIOMS:
         rx = re.compile(pat)
         m = mask(text)
